@@ -67,8 +67,6 @@ Definition sget (t : list (N * kstores)) (h k : N) : list ver :=
   match aget t h with Some s => lget s k | None => [] end.
 Definition sset (t : list (N * kstores)) (h k : N) (l : list ver) : list (N * kstores) :=
   aset t h (aset (match aget t h with Some s => s | None => [] end) k l).
-Definition skeys (t : list (N * kstores)) (h : N) : list N :=
-  match aget t h with Some s => map fst s | None => [] end.
 
 Inductive op :=
 | OBegin (l : level)
@@ -162,9 +160,14 @@ Definition list_keys (m : mstate) (x : txrec) : list N :=
 Definition remove_vers (del l : list ver) : list ver :=
   filter (fun v => negb (existsb (ver_eqb v) del)) l.
 
+(* the keys transaction h has written (Go: the entries of its store map; map
+   iteration order is unspecified in Go, the model uses the all-store's key order) *)
+Definition tx_keys (m : mstate) (h : N) : list N :=
+  filter (fun k => match sget (m_tx m) h k with [] => false | _ => true end) (map fst (m_all m)).
+
 (* all versions of transaction h, per key *)
 Definition tx_versions (m : mstate) (h : N) : list ver :=
-  flat_map (fun k => sget (m_tx m) h k) (skeys (m_tx m) h).
+  flat_map (fun k => sget (m_tx m) h k) (tx_keys m h).
 
 (* txStore.Delete(h) + DeleteLink of every node of h *)
 Definition unlink_tx (m : mstate) (h : N) : mstate :=
@@ -175,14 +178,10 @@ Definition unlink_tx (m : mstate) (h : N) : mstate :=
 Definition enqueue (m : mstate) (job : list ver) : mstate :=
   match job with [] => m | _ => set_q m (m_q m ++ [job]) end.
 
-(* second phase of UpdateTx for one kept version: draw, persist as main, push *)
+(* second phase of UpdateTx for one kept version: draw, persist as main, push —
+   the same as storing a version of the main transaction with the kept content id *)
 Definition push_committed (m : mstate) (f : ver) : mstate :=
-  let s := N.succ (m_seq m) in
-  let v := mkver s (v_cid f) 0 (v_key f) in
-  let m1 := set_seq m s in
-  let m2 := set_kvf m1 (aset (m_kvf m1) (v_cid f) v) in
-  let m3 := set_tx m2 (sset (m_tx m2) 0 (v_key f) (sget (m_tx m2) 0 (v_key f) ++ [v])) in
-  set_all m3 (aset (m_all m3) (v_key f) (lget (m_all m3) (v_key f) ++ [v])).
+  push_version m 0 (v_key f) (v_cid f).
 
 Definition is_snapshot (l : level) : bool :=
   match l with RR | SER => true | _ => false end.
@@ -190,7 +189,7 @@ Definition is_snapshot (l : level) : bool :=
 Definition commit (m : mstate) (x : txrec) : mstate * out :=
   let h := x_id x in
   let m0 := set_reg m (reg_del (m_reg m) h) in
-  let keys := skeys (m_tx m0) h in
+  let keys := tx_keys m0 h in
   let conflict :=
       is_snapshot (x_lvl x) &&
       existsb (fun k => match last_opt (sget (m_tx m0) 0 k) with
@@ -235,7 +234,9 @@ Definition gc (m : mstate) : mstate :=
       | [] => let s := N.succ (m_seq m) in (set_seq m s, s)
       end in
   let main := match aget (m_tx m0) 0 with Some s => s | None => [] end in
-  let deleted := flat_map (fun p => fst (collect_list v_seq (snd p) horizon)) main in
+  (* every key of the main store (Go map order is unspecified; the all-store's key order is used) *)
+  let deleted := flat_map (fun k => fst (collect_list v_seq (sget (m_tx m0) 0 k) horizon))
+                          (map fst (m_all m0)) in
   let main' := map (fun p => (fst p, snd (collect_list v_seq (snd p) horizon))) main in
   let m1 := set_tx m0 (aset (m_tx m0) 0 main') in
   let m2 := set_all m1 (map (fun p => (fst p, remove_vers deleted (snd p))) (m_all m1)) in
